@@ -1,10 +1,25 @@
 """C05 - a BMP session follows the RFC 7854 lifecycle for every order of messages."""
 from props.pipe_common import *
+from gens import bmpwiregen
 PROPS_FILE = "Props_C05.v"
+TRUSTED_BASE = TRUSTED_BASE + [
+    "engine bmpwire (op WB of the pipe engine): BMP frames from the proved encoder of Bmp/BmpWire.v (oracle bmpenc: text AST -> octets, oracle/eng_bmpenc.ml) "
+    "and octet-level mutations of them by lib/gens/bmpwiregen.py, cut by the real io.rs bmp_read (hook verif_bmp_read); naming of per-peer headers by FNV-1a on both sides",
+]
+ASSUMPTIONS = ASSUMPTIONS + [
+    "engine bmpwire: the capabilities of the generated OPEN PDUs are in their RFC form (BmpWire.tidy: codes 1, 2, 6, 9, 64, 65, 70 and codes routecore does not know); "
+    "routecore takes the value of a known capability apart by that code's grammar whatever its length octet says (C06's findings) - not modelled; ADD-PATH is not generated; "
+    "information strings are compared when ASCII",
+]
 RULE = ("exhaustive message sequences up to a bounded length over {Initiation, Peer Up (EoR-capable or not), Peer Down, "
         "Route Monitoring announce / withdraw / End-of-RIB / unparsable, Statistics, Termination} x 2 peers on one router, plus "
         "random long sequences on 1-2 routers; observable per message = outcome class, phase, canonical downstream update; "
-        "a case is non-trivial when it contains at least one invalid and one accepted message")
+        "a case is non-trivial when it contains at least one invalid and one accepted message. Engine bmpwire: the same state machine "
+        "fed with octets - BMP frames from the proved encoder of Bmp/BmpWire.v (16 per-peer headers differing in one compared field each, "
+        "OPENs with/without graceful restart and four-octet AS, every Peer Down reason, 0-4 information TLVs, statistics, mirroring, "
+        "Route Monitoring around PDUs of C04's encoder) in exhaustive short and random long sessions, two thirds of the random ones with "
+        "malformed frames (version, type, length field, cut / extended body, peer type, bit flips in the headers); non-trivial there = "
+        "at least one accepted and one invalid / refused frame")
 ALPHABET = ["I 0", "T 0", "U 0 0 1", "U 0 5 0", "D 0 0", "D 0 5", "R 0 0 0 1 1,2 0 -", "R 0 5 0 2 - 0 1", "E 0 0 0", "B 0 0", "S 0 5"]
 
 
@@ -43,12 +58,21 @@ def corpus():
             f"C 0;I 0;U 0 0 1;R 0 0 0 3 1 0 -;D 0 0 {r};D 0 0 {r};R 0 0 0 3 2 0 -;U 0 0 1;R 0 0 0 3 2 0 -" for r in (0, 1, 2, 3, 4, 6, 9, 255)]
 
 
-ENGINES = [{"name": "pipe", "gen": gen, "corpus": corpus, "nontrivial": nontrivial, "classify": pipegen.classify, "shards": 12}]
+ENGINES = [{"name": "pipe", "gen": gen, "corpus": corpus, "nontrivial": nontrivial, "classify": pipegen.classify, "shards": 12},
+           # BMP on the wire: frames from the proved encoder of Bmp/BmpWire.v and a malformed stream, through the real bmp_read,
+           # routecore's parser and the state machine (op WB of the pipe engine)
+           {"name": "bmpwire", "gen": bmpwiregen.gen, "corpus": bmpwiregen.corpus, "nontrivial": bmpwiregen.nontrivial,
+            "classify": bmpwiregen.classify, "shards": 12}]
 known_signature = known_signature_for({"K2"})
 LEVEL_TEXT = ("Theorems over all message sequences of the session state-machine model: phases only move forward, Invalid outcomes are exactly the "
               "lifecycle violations and change no state and are counted, routes are only taken from up peers under that peer's id, the downstream "
               "effect is a function of the message and the up set. Kernel-checked, axiom-free; tied to the real BmpState by exhaustive short and "
-              "random long message sequences encoded as real BMP bytes.")
+              "random long message sequences encoded as real BMP bytes. Round x5a: the messages as octets - an RFC 7854 codec in Coq "
+              "(round trip, stream framing, malformed classes refused), the state machine's reading of a decoded frame (which fields matter, per "
+              "message type; peer identity = routecore's PartialEq), C05's theorems restated over octet streams; tied to the real bmp_read + "
+              "routecore parser + BmpState by frames from the proved encoder and a malformed stream.")
 DESIGN_REF = "DESIGN.md section 6, C05"
-LEVEL_NOTE = "Trusted: Coq kernel, extraction + OCaml driver, Rust harness; BMP byte encoding by the repository's own test encoders; routecore's BMP parser is exercised, not modelled."
+LEVEL_NOTE = ("Trusted: Coq kernel, extraction + OCaml driver, Rust harness; BMP byte encoding by the repository's own test encoders (engine pipe) / "
+              "by the proved encoder of Bmp/BmpWire.v plus octet-level mutations of the python generator (engine bmpwire); routecore's BMP parser is "
+              "matched by an independent decoder on the generated domain (capabilities of an OPEN in their RFC form), not verified.")
 TECHNIQUE = "Coq proof by induction over message sequences (state-machine invariants) + model/implementation correspondence"
